@@ -45,6 +45,7 @@ type srvCfg struct {
 	budget   int // -1 = unlimited
 	publicIP  net.IP
 	storeFail bool // the underlying BEP 44 store fails Put for items with seq % 7 == 3
+	cbBlock   bool // the OnAnnouncePeer hook does not return until the history releases it (event hookrel)
 	scenario string
 }
 
@@ -108,6 +109,10 @@ type srvState struct {
 	lastTok   map[string]string // ip string -> last token seen
 	prevSnap  []dht.VerifNode
 	ratedSent int
+	// blocking application hook (cfg.cbBlock): every OnAnnouncePeer call records itself and then waits
+	// on the current gate; hookHeld = calls waiting right now (each is one goroutine of the library)
+	hookGate chan struct{}
+	hookHeld int64
 }
 
 type tokInfo struct {
@@ -125,7 +130,7 @@ func (st *srvState) waitQuiet() bool {
 	deadline := time.Now().Add(5 * time.Second)
 	stable := 0
 	for {
-		want := st.base + 2*int(atomic.LoadInt64(&st.started)-atomic.LoadInt64(&st.returned))
+		want := st.base + 2*int(atomic.LoadInt64(&st.started)-atomic.LoadInt64(&st.returned)) + int(atomic.LoadInt64(&st.hookHeld))
 		// every started query is either still registered or has returned to the harness
 		var npend int
 		guard("VerifPending", fmt.Sprintf("case=%d scenario=%s", st.c.idx, st.c.cfg.scenario), func() { npend = len(st.s.VerifPending()) })
@@ -159,6 +164,21 @@ func guard(what string, ctx string, f func()) {
 		oracle("C01", "api-does-not-return:"+what, "%s", ctx)
 		out.Flush()
 		os.Exit(3)
+	}
+}
+
+// releaseHooks lets every OnAnnouncePeer call that is waiting return; with rearm the hook keeps blocking
+// later calls (on a new gate), otherwise it returns at once from now on.
+func (st *srvState) releaseHooks(rearm bool) {
+	st.cbMu.Lock()
+	gate := st.hookGate
+	st.hookGate = nil
+	if rearm && gate != nil {
+		st.hookGate = make(chan struct{})
+	}
+	st.cbMu.Unlock()
+	if gate != nil {
+		close(gate)
 	}
 }
 
@@ -208,7 +228,17 @@ func startServer(c *srvCase) *srvState {
 		cfg.OnAnnouncePeer = func(ih metainfo.Hash, ip net.IP, port int, portOk bool) {
 			st.cbMu.Lock()
 			st.cbs = append(st.cbs, fmt.Sprintf("cb:%s:%s:%d:%d", hx(ih[:]), hx(ip), port, b2i(portOk)))
+			gate := st.hookGate
 			st.cbMu.Unlock()
+			if gate != nil {
+				// a slow application: the call is seen (recorded above) but does not return yet
+				atomic.AddInt64(&st.hookHeld, 1)
+				<-gate
+				atomic.AddInt64(&st.hookHeld, -1)
+			}
+		}
+		if c.cfg.cbBlock {
+			st.hookGate = make(chan struct{})
 		}
 	}
 	if len(c.cfg.veto) > 0 {
@@ -320,6 +350,11 @@ func (st *srvState) exec(ei int, e *sev) {
 		}
 		if !st.conn.inject(data, e.src, 5*time.Second) && !st.closed {
 			oracle("C01", "serve-loop-stuck", "case=%d ev=%d %s", c.idx, ei, lhs)
+			if atomic.LoadInt64(&st.hookHeld) > 0 {
+				// the serve loop may be waiting for the application hook: reported; let the history go on
+				oracle("C01", "serve-loop-stuck-while-announce-hook-blocks", "case=%d ev=%d %s", c.idx, ei, lhs)
+				st.releaseHooks(false)
+			}
 		}
 	case "adv":
 		st.vmu.Lock()
@@ -415,6 +450,10 @@ func (st *srvState) exec(ei int, e *sev) {
 		} else {
 			st.s.SetIPBlockList(e.bl)
 		}
+	case "hookrel":
+		// the application's announce hooks that were blocked return now (no effect on the node)
+		lhs = "hookrel"
+		st.releaseHooks(true)
 	case "close":
 		lhs = "close"
 		st.s.Close()
@@ -591,6 +630,14 @@ func (st *srvState) exec(ei int, e *sev) {
 		}
 		if len(results) > 1 {
 			oracle("C07", "one-datagram-completed-several-queries", "%s n=%d", ctxs, len(results))
+		}
+		// a peer's own query is never the reply to ours, whatever transaction id it carries
+		if isQuery {
+			for _, r := range results {
+				if r.err == "" {
+					oracle("C07", "query-completed-by-inbound-query", "%s qid=%d", ctxs, r.qid)
+				}
+			}
 		}
 		// C06: entries that appeared / disappeared
 		st.oracleEntry(e, inMsg, decodes, blockedSrc, prePending, preSnap, snap, ctxs)
@@ -1086,8 +1133,8 @@ func runServerCase(c *srvCase) {
 	if cfg.budget >= 0 {
 		budget = strconv.Itoa(cfg.budget)
 	}
-	emit("sbegin %d root=%s passive=%d nosec=%d ps=%d cb=%d veto=%s wait=%d secret=%s now=%d bl=%s budget=%s exp=%d storefail=%d scenario=%s => ok",
-		c.idx, hx(cfg.root[:]), b2i(cfg.passive), b2i(cfg.nosec), b2i(cfg.ps), b2i(cfg.cb), vs, b2i(cfg.wait), hx(secret), st.now().UnixNano(), blString(cfg.bl), budget, int64(2*time.Hour), b2i(cfg.storeFail), cfg.scenario)
+	emit("sbegin %d root=%s passive=%d nosec=%d ps=%d cb=%d veto=%s wait=%d secret=%s now=%d bl=%s budget=%s exp=%d storefail=%d cbblock=%d scenario=%s => ok",
+		c.idx, hx(cfg.root[:]), b2i(cfg.passive), b2i(cfg.nosec), b2i(cfg.ps), b2i(cfg.cb), vs, b2i(cfg.wait), hx(secret), st.now().UnixNano(), blString(cfg.bl), budget, int64(2*time.Hour), b2i(cfg.storeFail), b2i(cfg.cbBlock), cfg.scenario)
 	out.Flush()
 	for i := range c.evs {
 		st.exec(i, &c.evs[i])
@@ -1131,6 +1178,7 @@ func runServerCase(c *srvCase) {
 		oracle("C01", "api-does-not-return", "case=%d scenario=%s", c.idx, cfg.scenario)
 	}
 	emit("sfin %d => ok", c.idx)
+	st.releaseHooks(false)
 	for _, cancel := range st.cancels {
 		cancel()
 	}
